@@ -69,11 +69,21 @@ func buildFilterDoc(ops []fop, schemas []string) J {
 	paths := J{}
 	pp := false
 	viaResps := J{}
+	hdrs := J{}
 	for _, o := range ops {
 		pi := getJ(paths, o.Path)
 		resp := J{"description": "d"}
 		if o.Schema != "" {
 			resp["content"] = J{"application/json": J{"schema": J{"$ref": "#/components/schemas/" + o.Schema}}}
+			// a header component whose key is the key of another operation's schema: component sections are separate
+			// name spaces, the header of a kept operation does not keep the schema of a removed one
+			for i, sn := range schemas {
+				if sn == o.Schema {
+					hn := schemas[(i+2)%len(schemas)]
+					resp["headers"] = J{"X-H": J{"$ref": "#/components/headers/" + hn}}
+					hdrs[hn] = J{"schema": J{"type": "string"}}
+				}
+			}
 		}
 		if o.Schema != "" && o.Via {
 			// operation -> component response (its only user) -> schema: removing the operation orphans the response in one
@@ -122,6 +132,9 @@ func buildFilterDoc(ops []fop, schemas []string) J {
 		}
 		if len(viaResps) > 0 {
 			comps["responses"] = viaResps
+		}
+		if len(hdrs) > 0 {
+			comps["headers"] = hdrs
 		}
 		doc["components"] = comps
 	}
